@@ -151,7 +151,9 @@ def node_spec(pid, projection, monitor, text, partial, design_ref, explanation, 
         "explanation": explanation,
         "assumptions": ["debug-build semantics", "the simulated application follows the documented Ready/advance contract (DESIGN.md 4.2)"] + list(extra_assumptions),
         "manifest": {
-            "technique": "machine-checked proof in Coq about the executable node model (per-step theorems) + pointwise model/implementation correspondence on simulated cluster executions",
+            "technique": ("machine-checked proof in Coq about the abstract protocol P (invariants by induction over all executions) + executable acceptor proved sound in Coq and run on the implementation's P-level traces (refinement correspondence) + pointwise node-model/implementation correspondence on simulated cluster executions"
+                          if acceptor else
+                          "machine-checked proof in Coq about the executable node model (per-step and invariant theorems) + pointwise model/implementation correspondence on simulated cluster executions"),
             "text": text + (" PARTIAL: " + partial if partial else ""),
             "design_ref": design_ref,
             "note": "Trusted: Coq kernel; hand-written node model (M/Raft.v, M/RawNode.v, ...) validated against the code on every run by pointwise differential execution from the implementation's own pre-states (extracted OCaml + in-Coq vm_compute sample); hooks; simulator and dump code. No axioms.",
